@@ -109,8 +109,17 @@ Definition ex_st : cstate := {| s_txs := [([65], 5); ([66], 6)]; s_max := 2 |}.
 Example C08_ex_summary :
   ex_reply ex_ixs ex_status <> nil /\
   fst (fst (commit_transaction ex_cfg ex_st [65] 1000 ex_w)) =
-  ROk {| m_tid := Some 52523535; m_amount := Some 1234; m_trace := Some 77; m_date := Some 517; m_time := Some 93001 |}.
+  ROk {| m_tid := Some [53; 50; 53; 50; 51; 53; 51; 53]; m_amount := Some 1234; m_trace := Some 77;
+         m_date := Some [48; 53; 49; 55]; m_time := Some [48; 57; 51; 48; 48; 49] |}.   (* "52523535", "0517", "093001" *)
 Proof. split; [vm_compute; discriminate|vm_compute; reflexivity]. Qed.
+
+(* the summary's terminal id, date and time are text: `pad_dec w n` (format!("{:0w$}", n); w = 8 for the terminal id since the
+   fix of F10, 4 for the date, 6 for the time) has at least w characters, all decimal digits, and spells exactly the number *)
+Theorem C08_summary_text_spells_the_number : forall w n, n < 10 ^ 40 ->
+  (w <= length (pad_dec w n))%nat /\ Forall is_digit (pad_dec w n) /\ digits_value (pad_dec w n) = Some n.
+Proof. exact pad_dec_spec. Qed.
+Example C08_ex_terminal_id_keeps_its_zeros : pad_dec 8 123456 = [48; 48; 49; 50; 51; 52; 53; 54] /\ pad_dec 8 0 = repeat 48 8.
+Proof. split; vm_compute; reflexivity. Qed.
 
 (* non-vacuity: an ASCII token is one of the tokens the theorems speak about *)
 Example C08_ex_token : token_ok [116; 111; 107; 45; 49] [116; 111; 107; 45; 49].
@@ -128,3 +137,4 @@ Print Assumptions C08_begin_reserves_the_configured_amount.
 Print Assumptions C08_cancel_reverses_that_reservation.
 Print Assumptions C08_requests_in_class.
 Print Assumptions C08_summary_is_the_last_status_reported.
+Print Assumptions C08_summary_text_spells_the_number.
